@@ -298,6 +298,16 @@ class Engine:
             if inner.is_heapref:
                 return SV(to, v.t)
             return SV(to, v.t, z3.BoolVal(False))
+        if to.kind == "key":
+            if v.ty.kind == "key":
+                return v
+            if v.ty.kind == "str" and z3.is_string_value(v.t):
+                tbl = self.__dict__.setdefault("_interned_keys", {})
+                name = v.t.as_string()
+                if name not in tbl:
+                    tbl[name] = z3.IntVal(len(tbl) + 1)
+                return SV(to, tbl[name])
+            raise Unsupported(f"a dictionary key of type `key` must be a string literal, got {v.ty}")
         if to.kind == "any" and (v.ty.kind == "str" or (v.ty.kind == "opt" and v.ty.args[0].kind == "str")):
             b = self.box_str(v.t)
             if v.ty.kind == "opt":
@@ -1565,6 +1575,7 @@ class Engine:
         def list_keys(v):
             ety = v.ty.args[0]
             return ["list.len", f"list.elem.{T.sort_name(ety)}", "list.elemnone"]
+
 
 
         try:
